@@ -7,8 +7,8 @@
                                  newStructIterator + shouldIncludeField/isValueEmpty (field omission)
      go-duplicates               FindDuplicatePointers / scanValue (which objects get a marker)
      rules/context.go            BeginMarkerAnyType, MarkObject, LocalReferenceObject, EndDocument and
-     rules/rules_marker_ref.go   MarkedObjectAnyTypeRule: the marker/reference bookkeeping of the validator
-                                 (ONE pending marker id per document: the defect shared with C10/C13)
+     rules/rules_marker_ref.go   MarkedObjectAnyTypeRule, MarkContainer: the marker/reference bookkeeping of
+                                 the validator (the id of a marked container is kept in the marker's stack entry)
      builder/builder_marker.go   markerObjectBuilder (a marked container is registered when it ENDS)
      builder/reference_filler.go NotifyMarker / NotifyLocalReference (setters run at once or deferred)
      builder/builder_struct.go, builder_slice.go, builder_map.go, builder_ptr.go, builder_top_level.go
@@ -31,7 +31,7 @@
    Outside the model (stated where used): the encoders/decoders between iterator and builder (the
    codec round trip of these events is the subject of other properties; the harness runs the real
    CBE and CTE codecs and compares the final object graph); the validator's size limits (container
-   depth 1000, 10^6 objects, 10^4 marked objects) and every validator rule other than the
+   depth 1000, 10^6 objects, 10^4 marked objects / markers) and every validator rule other than the
    marker/reference bookkeeping (the case checker evaluates the complete validator model
    Model/Rules.v on every generated stream and compares); pointers into the middle of another object;
    slices sharing a backing array with different lengths; event streams that the builder stack for
@@ -263,10 +263,11 @@ Definition iterate_graph (h : heap) (dups : list addr) (omit_never : bool) (root
 (* ------------------------------------------------------------------------- *)
 (* The validator's marker / reference bookkeeping                              *)
 
-Inductive vframe := VContainer | VMarker.
+(* the stack entry a marker creates keeps the marker's id (contextStackEntry.MarkerID) *)
+Inductive vframe := VContainer | VMarker (id : bytes).
 Record vst := mkV {
   v_stack : list vframe;
-  v_slot : bytes;               (* Context.markerID: ONE slot *)
+  v_slot : bytes;               (* Context.markerID *)
   v_marked : list bytes;        (* markedObjects *)
   v_fwd : list bytes;           (* forwardLocalReferences *)
 }.
@@ -274,14 +275,20 @@ Definition vst0 : vst := mkV [] [] [] [].
 Definition bmem (x : bytes) (l : list bytes) : bool := existsb (bytes_eqb x) l.
 Definition bremove (x : bytes) (l : list bytes) : list bytes := filter (fun y => negb (bytes_eqb x y)) l.
 
-(* MarkObject, called when the marked object is complete: uses whatever is in the slot NOW *)
+(* MarkObject: registers the id that is in Context.markerID *)
 Definition v_mark (s : vst) : option vst :=
   if bmem (v_slot s) (v_marked s) then None
   else Some (mkV (v_stack s) (v_slot s) (v_slot s :: v_marked s) (bremove (v_slot s) (v_fwd s))).
-(* an object (scalar, or a container that just ended) was delivered to the rule on top *)
-Definition v_object (s : vst) : option vst :=
+(* a scalar was delivered to the rule on top: MarkedObjectAnyTypeRule unstacks itself, then MarkObject *)
+Definition v_scalar (s : vst) : option vst :=
   match v_stack s with
-  | VMarker :: rest => v_mark (mkV rest (v_slot s) (v_marked s) (v_fwd s))
+  | VMarker _ :: rest => v_mark (mkV rest (v_slot s) (v_marked s) (v_fwd s))
+  | _ => Some s
+  end.
+(* a container ended below the rule on top: MarkContainer takes the id from the marker's own entry *)
+Definition v_ended (s : vst) : option vst :=
+  match v_stack s with
+  | VMarker id :: rest => v_mark (mkV rest id (v_marked s) (v_fwd s))
   | _ => Some s
   end.
 Definition vstep (s : vst) (e : event) : option vst :=
@@ -290,22 +297,22 @@ Definition vstep (s : vst) (e : event) : option vst :=
   | EEndDoc => if is_nil (v_fwd s) then Some s else None
   | EMarker id =>
       match v_stack s with
-      | VMarker :: _ => None
-      | _ => Some (mkV (VMarker :: v_stack s) id (v_marked s) (v_fwd s))
+      | VMarker _ :: _ => None
+      | _ => Some (mkV (VMarker id :: v_stack s) id (v_marked s) (v_fwd s))
       end
   | ERefLocal id =>
       match v_stack s with
-      | VMarker :: _ => None
+      | VMarker _ :: _ => None
       | _ => Some (if bmem id (v_marked s) then s
                    else mkV (v_stack s) (v_slot s) (v_marked s) (id :: bremove id (v_fwd s)))
       end
   | EList | EMap => Some (mkV (VContainer :: v_stack s) (v_slot s) (v_marked s) (v_fwd s))
   | EEnd =>
       match v_stack s with
-      | VContainer :: rest => v_object (mkV rest (v_slot s) (v_marked s) (v_fwd s))
+      | VContainer :: rest => v_ended (mkV rest (v_slot s) (v_marked s) (v_fwd s))
       | _ => None
       end
-  | _ => v_object s
+  | _ => v_scalar s
   end.
 Fixpoint vrun (s : vst) (es : list event) : option vst :=
   match es with
@@ -568,25 +575,6 @@ Definition typed (h : heap) (root : ref) : bool :=
 Definition no_empty_containers (h : heap) : bool :=
   forallb (fun an : addr * node => negb (container_empty (snd an))) h.
 
-(* no marker inside a marked object *)
-Fixpoint tm_marks (t : tm) : N :=
-  match t with
-  | TNode _ m _ kids =>
-      (match m with Some _ => 1 | None => 0 end) + fold_right (fun (lt : label * tm) acc => tm_marks (snd lt) + acc) 0 kids
-  | _ => 0
-  end.
-Fixpoint tm_flat (t : tm) : bool :=
-  match t with
-  | TNode _ m _ kids =>
-      match m with
-      | Some _ => forallb (fun lt : label * tm => tm_marks (snd lt) =? 0) kids
-      | None => forallb (fun lt : label * tm => tm_flat (snd lt)) kids
-      end
-  | _ => true
-  end.
-Definition graph_flat (h : heap) (dups : list addr) (omit_never : bool) (root : ref) : bool :=
-  match iterate_tree h dups omit_never root with Some t => tm_flat t | None => false end.
-
 (* ------------------------------------------------------------------------- *)
 (* Isomorphism of pointed heaps, decided by a simultaneous walk                *)
 
@@ -675,7 +663,7 @@ Definition graph_case_ok (c : graph_case) : bool :=
       (* 5. the theorem's statement on the implementation's own answers: under its hypotheses the
             unmarshaled graph is isomorphic to the original *)
       (if typed h root && closed h root && no_empty_containers h && negb omit_never &&
-          cover_ok h d && indeg_ok h root d && (negb rules || graph_flat h d false root)
+          cover_ok h d && indeg_ok h root d
        then forallb (fun r => match r with IOk h' r' => giso_check h root h' r' && giso_check h' r' h root | IErr => false end) results
        else true)
   | StreamCase rules es result =>
